@@ -546,6 +546,18 @@ class Exec:
         return za, zb
 
     def order(self, op, a, b):
+        if isinstance(a, tuple) and isinstance(b, tuple):
+            # lexicographic comparison of tuples with symbolic members (forks on the first differing position)
+            for x, y in zip(a, b):
+                if self.truth(self.eq(x, y)):
+                    continue
+                strict = ast.Lt() if isinstance(op, (ast.Lt, ast.LtE)) else ast.Gt()
+                return self.order(strict, x, y)
+            if len(a) != len(b):
+                return {ast.Lt: len(a) < len(b), ast.LtE: len(a) <= len(b), ast.Gt: len(a) > len(b), ast.GtE: len(a) >= len(b)}[type(op)]
+            return isinstance(op, (ast.LtE, ast.GtE))
+        if isinstance(a, Obj) and isinstance(b, Obj) and self.models.get(a.cls) is not None and hasattr(self.models[a.cls], 'op_order'):
+            return self.models[a.cls].op_order(self, a, op, b)
         if _plain(a) and _plain(b):
             return {ast.Lt: lambda: a < b, ast.LtE: lambda: a <= b, ast.Gt: lambda: a > b, ast.GtE: lambda: a >= b}[type(op)]()
         if isinstance(a, Rat) or isinstance(b, Rat):
@@ -623,6 +635,18 @@ class Exec:
         # strings
         if isinstance(op, ast.Add) and (B.kind_of(a) == 'str' and B.kind_of(b) == 'str'):
             return z3.Concat(self.toz(a), self.toz(b))
+        realish = lambda v: isinstance(v, float) or (isinstance(v, z3.ExprRef) and z3.is_real(v))
+        if (realish(a) or realish(b)) and isinstance(op, (ast.Add, ast.Sub, ast.Mult, ast.Div)):
+            # real-valued operands (timestamps): real arithmetic, listed as "machine arithmetic treated as mathematical" where used
+            za, zb = self.num_coerce(self.toz(a), self.toz(b))
+            if z3.is_int(za):
+                za = z3.ToReal(za)
+            if z3.is_int(zb):
+                zb = z3.ToReal(zb)
+            if isinstance(op, ast.Div):
+                self.implicit('division by zero', zb != 0, 'ZeroDivisionError')
+                return za / zb
+            return {ast.Add: lambda: za + zb, ast.Sub: lambda: za - zb, ast.Mult: lambda: za * zb}[type(op)]()
         # exact rationals: float-valued expressions over integers (DESIGN 2.3)
         if isinstance(op, ast.Div) or isinstance(a, Rat) or isinstance(b, Rat):
             (an, ad), (bn, bd) = self.rat(a), self.rat(b)
@@ -1479,7 +1503,14 @@ class Exec:
 
     def s_Delete(self, s, env):
         for t in s.targets:
-            if isinstance(t, ast.Subscript):
+            if isinstance(t, ast.Subscript) and isinstance(t.slice, ast.Slice):
+                o = self.ev(t.value, env)
+                lo = self.concretize_index(self.ev(t.slice.lower, env)) if t.slice.lower is not None else None
+                hi = self.concretize_index(self.ev(t.slice.upper, env)) if t.slice.upper is not None else None
+                if not isinstance(o, list) or (t.slice.lower is not None and lo is None) or (t.slice.upper is not None and hi is None) or t.slice.step is not None:
+                    raise Unsupported('del of a slice with symbolic bounds')
+                del o[lo:hi]
+            elif isinstance(t, ast.Subscript):
                 self.delitem(self.ev(t.value, env), self.ev(t.slice, env))
             elif isinstance(t, ast.Name):
                 env.assign(t.id, UNBOUND)
